@@ -103,7 +103,7 @@ EXPORT errno_t _strfirstsame_s_chk(const char *dest, rsize_t dmax,
     /*
      * find the offset
      */
-    while (*dest && *src && dmax) {
+    while (dmax && *dest && *src) {
 
         if (*dest == *src) {
             *resultp = (uint32_t)(dest - rp);
